@@ -748,7 +748,7 @@ struct Digit {
 
         using Info_T = DigitUtils::RealNumberInfo<Float_T, number_size>;
         // 4.9406564584124654e-324 needs about 1216 bits to store all its digits.
-        using BigIntSys  = BigInt<SystemIntType, ((Info_T::Bias + 1U) + (number_size * 8U * 3U))>;
+        using BigIntSys  = BigInt<SystemIntType, ((Info_T::Bias + 1U) + (number_size * 8U * 5U))>;
         using DigitConst = DigitUtils::DigitConst<BigIntSys::SizeOfType()>;
 
         const Number_T bias = (number & Info_T::ExponentMask);
@@ -831,9 +831,9 @@ struct Digit {
                     SizeT32 times = fraction_length;
 
                     if (times >= DigitConst::MaxPowerOfFive) {
-                        const SizeT32 max_index = (format.Precision < Info_T::MaxCut)
-                                                      ? ((format.Precision / DigitConst::MaxPowerOfTen) + 2U)
-                                                      : b_int.MaxIndex();
+                        // Low words are dropped mid-way only when the BigInt is about to run out of room;
+                        // dropping them earlier loses digits that are still needed for correct rounding.
+                        const SizeT32 max_index = b_int.MaxIndex();
 
                         do {
                             b_int *= DigitConst::GetPowerOfFive(DigitConst::MaxPowerOfFive);
